@@ -100,7 +100,7 @@ contract('gnpy.core.info.is_in_band', props=['C07', 'C04'],
          returns=vec_len('len(frequency)', 'bool'), pure=True)
 
 SI2 = SI('n2')
-contract('gnpy.core.info.SpectralInformation.__add__', props=['C07', 'C01', 'C02'],
+contract('gnpy.core.info.SpectralInformation.__add__', props=['C07', 'C01', 'C02', 'C05', 'C06'],
          params={'self': SI(), 'other': SI('n2')},
          let={'pi': 'sort_perm(append(self._frequency, other._frequency))[0]',
               'tot': 'self._number_of_channels + other._number_of_channels'},
